@@ -189,10 +189,10 @@ def settle (s : Stmt) (extra hint : Nat) (c : Nat) : Option Stmt :=
   (orPost s c).map (fun pb => { s with pkg := { s.pkg with size := s.pkg.size + extra, maxSize := s.pkg.size + extra, postByte := pb },
                                         pcrHint := hint, fixedSize := true })
 
-/-- a label multiplied or divided: the 16-bit form is taken at once -/
+/-- a label multiplied or divided, or combined with anything but a number (another label): the 16-bit form is taken at once -/
 def exprForces (v : Value) : Bool :=
   match v with
-  | .expr _ _ op _ true => !(op == '+' || op == '-')
+  | .expr l r op _ true => !(op == '+' || op == '-') || !((if l.isAddress then r else l).isNumeric)
   | _ => false
 
 /-- magnitude of the constant of `label +- constant` (widens both distance estimates) -/
@@ -210,7 +210,7 @@ def determine (ss : List Stmt) (i : Nat) (s : Stmt) : Outcome Stmt :=
     | none => .internal
     | some rel =>
       if rel > ss.length then .internal else
-      let back := rel < i
+      let back := rel ≤ i                             -- the statement's own label counts as a backward reference
       let (mn, mx) := if back then sumSizes ss rel i else sumSizes ss i rel
       let adj := (if back then s.pkg.size - 1 else 0) + exprExtra s.pkg.additional
       let mn := mn + 2 + adj
@@ -300,7 +300,7 @@ def addrOffset (ss : List Stmt) (v : Value) : Outcome Value :=
       | none => .internal
       | some a =>
         let z : Option Int :=
-          if op == '+' then some ((a : Int) + add) else if op == '-' then some ((a : Int) - add)
+          if op == '+' then some ((a : Int) + add) else if op == '-' then some (((a : Int) - add) % 65536)
           else if op == '*' then some ((a : Int) * add) else (if add = 0 then none else some ((a / add : Nat) : Int))
         match z with
         | none => .diag                                          -- ZeroDivisionError, reported as a TranslationError
@@ -359,6 +359,7 @@ def fixOne (ss : List Stmt) (i : Nat) (s : Stmt) : Outcome Stmt :=
             match rel, addrIntOf ss i with
             | .ok r, some start =>
               let jump : Int := (r : Int) - start - s2.pkg.size
+              let jump : Int := (jump + 0x8000) % 0x10000 - 0x8000      -- signed distance modulo 65536 (fix ec1693d)
               let jump : Int := if s2.pcrHint = 4 then jump % 0x10000 else jump
               (match numericOfInt jump (some s2.pcrHint) .none with
                | .ok v => .ok { s2 with pkg := { s2.pkg with additional := v } }
